@@ -5,6 +5,7 @@ use crate::errors::{Result, VibratoError};
 use crate::sentence::Sentence;
 
 /// Representation of a pair of a surface and features.
+#[cfg_attr(vibrato_verif, derive(Clone))]
 pub struct Word {
     surface: String,
 
